@@ -175,7 +175,7 @@ def _next_step(r, model, fs, ns, nfaults):
     if model["cbin"] == "complete":
         ops += ["decompress"] * 2 + ["to_scratch"] * 2 + ["inplace_cycle"]
     if model["bin"] == "complete" and model["cbin"] == "complete" and model.get("chunk_duration"):
-        ops += ["recompress"] * 2
+        ops += ["recompress"] * 2 + ["replace_compress"]
     if not ops:
         return None
     op = r.choice(ops)
@@ -198,6 +198,15 @@ def _next_step(r, model, fs, ns, nfaults):
             st.update(model["codec"])
             st["via"] = "kwargs"
         op = "compress"
+    if op == "replace_compress":
+        # history: the operator replaces the .bin by another recording of the same shape (re-copied, re-exported) while the
+        # old .cbin/.ch pair is still there, then compresses again: the published .cbin must hold the NEW content
+        cs, cd = _chunking(r, ns, fs)
+        st = {"op": "compress", "replace_content": r.randrange(1 << 30), "chunk_samples": cs, "chunk_duration": cd,
+              "n_threads": r.choice([1, 2, 4]), "check_after": r.random() < 0.7, "via": "kwargs", "fault": None}
+        op = "compress"
+        st["keep_original"] = r.random() < 0.5
+        return st
     if op == "compress":
         st["keep_original"] = r.random() < 0.5
     if op == "decompress":
@@ -225,6 +234,8 @@ def _next_step(r, model, fs, ns, nfaults):
 def _precond(st, model):
     op = st["op"]
     if op == "compress":
+        if st.get("replace_content") is not None:
+            return model["bin"] == "complete" and model["cbin"] == "complete"
         if st.get("recompress"):
             return model["bin"] == "complete" and model["cbin"] == "complete" and \
                 model.get("chunk_duration") == st.get("chunk_duration")
@@ -272,6 +283,19 @@ class World:
         self.decoys = {p: sha1_file(p) for p in (self.root / f"{STEM}.ap.{e}" for e in ("bin", "meta", "cbin", "ch"))} if self.U else {}
         self.meta_sha = sha1_file(self.meta)
         self.knobs = dict(knobs)
+
+    def replace_content(self, data_seed):
+        """The operator puts another recording of the same shape under the same name (the oracle's pristine copy follows)."""
+        self.O = world.make_data(data_seed, self.w["ns"], self.w["nap"])
+        self.Obytes = self.O.tobytes()
+        self.bin.write_bytes(self.Obytes)
+        (self.oracle / f"{STEM}.ap.bin").write_bytes(self.Obytes)
+        # scratch copies of the old content belong to the old recording: the operator clears them
+        for p in list(self.root.rglob("*.bin")):
+            if p != self.bin and p not in self.decoys:
+                p.unlink()
+                if p.with_suffix(".meta").exists():
+                    p.with_suffix(".meta").unlink()
 
     def set_config(self, extra=None):
         k = dict(self.knobs)
@@ -397,6 +421,9 @@ def _exec_step(W, st, model, log, stats, bump, seed, progress=False):
         fr = rng_of(fault["rseed"])
         fault = session.place_fault(fr, dr["events"], eligible, kinds=("kill", "kill", "io_error", "io_error", "torn", "torn", "interrupt"))
         st["fault"] = fault
+    if st.get("replace_content") is not None:
+        W.replace_content(st["replace_content"])
+        bump("probes", "source_replaced_then_compressed_again")
     before = W.observe()
     src_sha = {p.name: sha1_file(p) for p in (W.bin, W.cbin, W.ch) if p.exists()}
     res = session.run_step(W.root, do_step, st, fault, W.cfg, pool_seed, read_events=True)
@@ -436,6 +463,8 @@ def _exec_step(W, st, model, log, stats, bump, seed, progress=False):
         raise Violation("C02.A2", f"{sig0}:meta-removed", "the recording's metadata file was removed | " + ctx)
     if sha1_file(W.meta) != W.meta_sha:
         raise Violation("C02.A2", f"{sig0}:meta-changed", "metadata file changed | " + ctx)
+    if after["cbin"] == "other" and st.get("replace_content") is not None and not failed:
+        raise Violation("C02.L", f"{sig0}:stale-cbin-after-recompression", "the .bin was replaced by another recording of the same shape and compressed again; the published .cbin does not hold the new content | " + ctx)
     if after["cbin"] == "other":
         # tolerated only while an in-place decompression is removing its source (the .cbin and its
         # .ch go one after the other) and the replacement .bin is already complete
